@@ -45,6 +45,17 @@ def cases(tier, rng):
         yield {"k": 303 if "sort" in api else 302, "args": [ds, nets.pits(ds)], "call": {"api": api}, "group": f"rand-{api}"}
         yield {"k": 305, "args": [ds], "call": {"api": "ras"}, "group": "rand-isvalid"}
         yield {"k": 306, "args": [ds], "call": {"api": rng.choice(["vec", "ras"]), "pre": rng.choice([None, "sort", "walk"])}, "group": "rand-repair"}
+        # pits added through the API (with repeated / already-pit locations) before ordering: the model gets the new network
+        nonpit = [i for i in range(n) if ds[i] >= 0]
+        if nonpit:
+            chosen = [rng.choice(nonpit) for _ in range(rng.randint(1, 3))]
+            chosen = chosen + [rng.choice(chosen)]          # at least one duplicate
+            ds2 = list(ds)
+            for i in chosen:
+                ds2[i] = i
+            api2 = rng.choice(["vec-sort", "ras-walk", "ras-sort", "vec-walk"])
+            yield {"k": 303 if "sort" in api2 else 302, "args": [ds2, nets.pits(ds2)],
+                   "call": {"api": api2, "from": ds, "addpits": chosen, "pre": rng.choice([None, "walk", "sort"])}, "group": f"rand-addpits-{api2}"}
 
 
 def impl(case):
@@ -71,9 +82,15 @@ def impl(case):
             return [[int(x) for x in v]] if st == "ok" else [[-2], [st]]
     api = call["api"]
     mk = make_vector if api.startswith("vec") else make_raster
-    st, flw = call_impl(mk, ds)
+    st, flw = call_impl(mk, call.get("from", ds))
     if st != "ok":
         return [[-2], [st]]
+    if call.get("addpits"):
+        if call.get("pre"):
+            call_impl(flw.order_cells, call["pre"])
+        st, _ = call_impl(flw.add_pits, idxs=np.array(call["addpits"]))
+        if st != "ok":
+            return [[-2], [st]]
     if k in (302, 303):
         st, _ = call_impl(flw.order_cells, "sort" if k == 303 else "walk")
         if st != "ok":
